@@ -124,6 +124,16 @@ func c20Entity(t reflect.Type, key string) reflect.Value {
 	return pv.Elem()
 }
 
+// c20End logs the End event of a call and, when the plan carries the marker "c20:ret", parks once
+// more at <key>#ret: the driver's script releases that gate before it releases the next call, so
+// the recorded End events are totally ordered as the replayed behaviour prescribes.
+func c20End(ctx context.Context, run *Run, key, outcome string) {
+	run.Log(Event{E: "End", P: key, T: outcome})
+	if _, ok := run.Plan["c20:ret"]; ok {
+		run.park(ctx, key+"#ret")
+	}
+}
+
 func c20Ret(rt reflect.Type, v reflect.Value, err error) []reflect.Value {
 	ev := reflect.Zero(errType)
 	if err != nil {
@@ -156,10 +166,10 @@ func c20Single(name string, ft reflect.Type) func([]reflect.Value) []reflect.Val
 		}
 		switch out.K {
 		case "err":
-			run.Log(Event{E: "End", P: key, T: "err"})
+			c20End(ctx, run, key, "err")
 			return c20Ret(rt, reflect.Value{}, errors.New("E:"+key))
 		case "panic":
-			run.Log(Event{E: "End", P: key, T: "panic"})
+			c20End(ctx, run, key, "panic")
 			panic("P:" + key)
 		case "null":
 			if rt.Kind() != reflect.Ptr {
@@ -167,10 +177,10 @@ func c20Single(name string, ft reflect.Type) func([]reflect.Value) []reflect.Val
 				run.Notes = append(run.Notes, "inapplicable: null for non-nilable "+rt.String()+" at "+key)
 				run.mu.Unlock()
 			}
-			run.Log(Event{E: "End", P: key, T: "null"})
+			c20End(ctx, run, key, "null")
 			return c20Ret(rt, reflect.Value{}, nil)
 		}
-		run.Log(Event{E: "End", P: key, T: "ent"})
+		c20End(ctx, run, key, "ent")
 		return c20Ret(rt, c20Entity(rt, key), nil)
 	}
 }
@@ -208,13 +218,13 @@ func c20Batch(name string, ft reflect.Type) func([]reflect.Value) []reflect.Valu
 		}
 		switch out.K {
 		case "err":
-			run.Log(Event{E: "End", P: name, T: "err"})
+			c20End(ctx, run, name, "err")
 			return c20Ret(rt, reflect.Value{}, errors.New("E:"+name))
 		case "panic":
-			run.Log(Event{E: "End", P: name, T: "panic"})
+			c20End(ctx, run, name, "panic")
 			panic("P:" + name)
 		case "null":
-			run.Log(Event{E: "End", P: name, T: "null"})
+			c20End(ctx, run, name, "null")
 			return c20Ret(rt, reflect.Value{}, nil)
 		}
 		n := len(keys)
@@ -243,7 +253,7 @@ func c20Batch(name string, ft reflect.Type) func([]reflect.Value) []reflect.Valu
 			}
 			res.Index(i).Set(c20Entity(rt.Elem(), k))
 		}
-		run.Log(Event{E: "End", P: name, T: out.K})
+		c20End(ctx, run, name, out.K)
 		return c20Ret(rt, res, nil)
 	}
 }
